@@ -286,6 +286,35 @@ def check_r4c(eng, rep, cq, fi, summ, ename):
     if short_fn(fi.qname) in NAVIGATION_ACCESSORS:
         return
     ret = summ.ret
+    # a collection / generator handed out by a query whose ELEMENTS are the operand's own mutable builtin containers
+    # (a list kept inside an object reachable from self): editing a received element edits the operand.  Decided per
+    # yield / per element of the returned collection; the element is a container when its abstract type says so, or
+    # when it IS a field (`x.body`) that holds a builtin container in every class that has a field of that name.
+    CONT = {"list", "set", "dict", "deque"}
+
+    def _field_is_container(l):
+        if not l[1] or l[1][-1] == "[]":
+            return False
+        seg = l[1][-1]
+        cands = [v for (cq_, f), v in eng.interp.field_table.items() if f in (seg, "_" + seg) and v is not None]
+        return bool(cands) and all(v.types is not None and v.types and v.types <= CONT for v in cands)
+    handed = [(ev.value, ev) for ev in summ.events if ev.kind == "yield" and ev.func is fi and ev.value is not None]
+    if not handed and ret.elem is not None and ret.types is not None and ret.types & (CONT | {"tuple", "generator"}):
+        handed = [(ret.elem, None)]
+    for v, ev in handed:
+        inner = sorted(l for l in v.alias if operand_root(l) and l[1] and
+                       ((v.types is not None and v.types and v.types <= CONT) or _field_is_container(l)))
+        if inner:
+            rep.violation("R4c", "C19.R4c", fi.qname, "yields-alias:%s" % loc_str((inner[0][0] if inner[0][0] == "self" else "arg",
+                                                                                 tuple(p for p in inner[0][1] if p != "[]"))),
+                          "an element handed out by %s is the operand's own container %s, not a copy: editing it edits the "
+                          "source" % (ename, loc_str(inner[0])),
+                          site=(ev.site.to_json() if ev is not None else site_of(eng.prog, fi, fi.node)), path=[ename])
+            break
+    else:
+        if any(ev is not None for _, ev in handed):
+            rep.holds("R4c", "C19.R4c", fi.qname, "yields-fresh:" + eng.prog.classes[cq].name,
+                      "no element handed out by the generator is a builtin container kept inside an operand")
     if ret.types is None and not ret.alias:
         return
     mut_types = set()
